@@ -131,6 +131,10 @@ func kinds() []*kind {
 		}
 		return []byte("[" + strings.Join(parts, ",\n") + "]\n")
 	})
+	// the generic "http" provider: the decoder is chosen by the 'decoder' option
+	ks = append(ks, &kind{Name: "http(decoder=uripost)", Type: "http", File: "/ammo", Extract: httpKey, Render: ks[2].Render, Conf: func(k *kind, limit, passes int) map[string]any {
+		return map[string]any{"type": "http", "decoder": "uripost", "file": k.File, "limit": limit, "passes": passes}
+	}})
 	plain := func(k *kind, limit, passes int) map[string]any {
 		return map[string]any{"type": k.Type, "file": k.File, "limit": limit, "passes": passes}
 	}
